@@ -18,3 +18,8 @@ Proof. vm_compute. reflexivity. Qed.
 
 (* coverage of the theorem classes on this run's scripts: (cases, in ext_safe as_written, in ext_safe pre_fix) *)
 Eval vm_compute in (N.of_nat (length tree_cases), count_safe as_written tree_cases, count_safe pre_fix tree_cases).
+
+(* coverage of the executed-opcode theorem: (scripts outside Tap with a satisfaction figure, of which in ops_covered) *)
+Eval vm_compute in
+  (let l := filter (fun t => match t_ctx t with CTap => false | _ => match sat_data (ext_of (cx (t_ctx t)) (t_ms t)) with Some _ => true | None => false end end) tree_cases in
+   (N.of_nat (length l), N.of_nat (length (filter (fun t => ops_covered as_written (cx (t_ctx t)) (t_ms t)) l)))).
